@@ -5574,3 +5574,69 @@ func ruleMethodLookupArity(c *Ctx) {
 	}
 	c.Floor("method lookups by a dynamic name on the call path", n, 3)
 }
+
+// ---------------------------------------------------------------------------
+// attr-fee-gate (C07) - "pays at least ... plus attribute fees". verifyTxAttributes decides whether an attribute
+// kind is admitted at all (hardfork, signers); CalculateAttributesFee decides what it costs. An arm of the fee
+// calculator that charges only under a condition must use a condition the admission arm of the same kind also
+// tests - otherwise there is a configuration in which the attribute is admitted and free (NotaryAssisted: admitted
+// from Echidna on, charged only with the P2PSigExtensions setting, which the stock mainnet configuration leaves off
+// while the notary nodes are still rewarded per key by Notary.OnPersist).
+func ruleAttrFeeGate(c *Ctx) {
+	fee := c.P.Func("pkg/core", "Blockchain", "CalculateAttributesFee")
+	adm := c.P.Func("pkg/core", "Blockchain", "verifyTxAttributes")
+	if fee == nil || adm == nil {
+		c.Lost("attr-fee-gate.anchor", "CalculateAttributesFee / verifyTxAttributes not found")
+		return
+	}
+	condSyms := func(fd *FuncDecl) map[string]map[string]bool {
+		f := c.P.NewFuncCFG(fd)
+		out := map[string]map[string]bool{}
+		for _, arms := range constSwitches(f.Info, fd.Decl.Body, "pkg/core/transaction", "AttrType") {
+			for _, a := range arms {
+				for _, nm := range a.Consts {
+					if out[nm] == nil {
+						out[nm] = map[string]bool{}
+					}
+					for _, st := range a.Body {
+						ast.Inspect(st, func(x ast.Node) bool {
+							if is, ok := x.(*ast.IfStmt); ok {
+								for s := range f.DirectMentions(is.Cond) {
+									if strings.Contains(s, "(") && !strings.HasPrefix(s, "local") { // calls: predicates of the ledger/config
+										out[nm][s] = true
+									}
+								}
+							}
+							return true
+						})
+					}
+				}
+			}
+		}
+		return out
+	}
+	fs, as := condSyms(fee), condSyms(adm)
+	n := 0
+	var kinds []string
+	for k := range fs {
+		kinds = append(kinds, k)
+	}
+	sort.Strings(kinds)
+	for _, k := range kinds {
+		n++
+		key := "attr-fee-gate." + k
+		var extra []string
+		for s := range fs[k] {
+			if !as[k][s] {
+				extra = append(extra, shortSym(s))
+			}
+		}
+		sort.Strings(extra)
+		if len(extra) == 0 {
+			c.OK(key, c.P.Pos(fee.Decl.Pos()), "the fee of this attribute kind is charged whenever the kind is admitted")
+		} else {
+			c.Fail(key, c.P.Pos(fee.Decl.Pos()), fmt.Sprintf("CalculateAttributesFee charges the %s attribute only under %v, a condition verifyTxAttributes does not test for that kind: where the condition is false the attribute is admitted and costs nothing - the network fee accepted is below 'size x fee-per-byte plus attribute fees'", k, extra))
+		}
+	}
+	c.Floor("attribute kinds with a fee arm of their own", n, 2)
+}
